@@ -339,15 +339,19 @@ func TestConcurrentKeys(t *testing.T) {
 	if err != nil {
 		t.Skip("no key-quality selection")
 	}
+	// (no lint runs yet: the concurrent phase below holds the process's first calls of the key-quality code)
 	var bases [][]byte
 	for i := shard * 13; i < len(co.Certs)+shard*13 && len(bases) < 3; i++ {
 		o := co.Certs[i%len(co.Certs)]
 		c, ok := gen.ParseCert(o.DER)
-		if !ok || c.PublicKeyAlgorithm.String() != "RSA" || c.SelfSigned {
+		if !ok || c.PublicKeyAlgorithm.String() != "RSA" || c.SelfSigned || c.IsCA || len(c.DNSNames) == 0 {
 			continue
 		}
-		rs := zlint.LintCertificateEx(c, reg)
-		if r := rs.Results["w_rsa_mod_factors_smaller_than_752"]; r != nil && r.Status >= lint.Pass {
+		serverAuth := len(c.ExtKeyUsage) == 0
+		for _, e := range c.ExtKeyUsage {
+			serverAuth = serverAuth || e == x509.ExtKeyUsageServerAuth
+		}
+		if serverAuth {
 			bases = append(bases, o.DER)
 		}
 	}
@@ -382,15 +386,14 @@ func TestConcurrentKeys(t *testing.T) {
 			}
 		}
 	}
-	alone := make([]string, len(ders))
-	for i, der := range ders {
-		c, _ := gen.ParseCert(der)
-		alone[i] = engine.Digest(zlint.LintCertificateEx(c, reg))
-	}
 	const W = 8
 	runtime.GOMAXPROCS(W)
 	iters := stats.Scale(60, 600)
-	errs := make(chan string, W)
+	type seen struct {
+		i int
+		d string
+	}
+	got := make([][]seen, W)
 	var wg sync.WaitGroup
 	start := make(chan struct{})
 	for w := 0; w < W; w++ {
@@ -404,19 +407,35 @@ func TestConcurrentKeys(t *testing.T) {
 				if !ok {
 					continue
 				}
-				if d := engine.Digest(zlint.LintCertificateEx(c, reg)); d != alone[i] {
-					errs <- fmt.Sprintf("key %d: key-quality verdicts %s while other goroutines judge other keys, %s alone", i, d, alone[i])
-					return
-				}
+				got[w] = append(got[w], seen{i, engine.Digest(zlint.LintCertificateEx(c, reg))})
 			}
 		}(w)
 	}
 	close(start)
 	wg.Wait()
-	close(errs)
-	for e := range errs {
-		if rec.Report("c10", "keys-differ-from-sequential", e, program{}) {
-			t.Fatalf("%s", e)
+	// the same calls alone, afterwards
+	alone := make([]string, len(ders))
+	ran := false
+	for i, der := range ders {
+		c, _ := gen.ParseCert(der)
+		rs := zlint.LintCertificateEx(c, reg)
+		alone[i] = engine.Digest(rs)
+		if r := rs.Results["w_rsa_mod_factors_smaller_than_752"]; r != nil && r.Status >= lint.Pass {
+			ran = true
+		}
+	}
+	if !ran {
+		rec.Class("key_lints_did_not_run")
+	}
+	for w := 0; w < W; w++ {
+		for _, s := range got[w] {
+			if s.d != alone[s.i] {
+				e := fmt.Sprintf("key %d: key-quality verdicts %s while other goroutines judge other keys (among the first calls of the process), %s alone", s.i, s.d, alone[s.i])
+				if rec.Report("c10", "keys-differ-from-sequential", e, program{}) {
+					t.Fatalf("%s", e)
+				}
+				break
+			}
 		}
 	}
 	rec.EvalN(int64(W * iters))
